@@ -65,6 +65,7 @@ class REPEX_state:
             "keep_traj_fnames", []
         )
         # set rng
+        self._restore_rgen_state = "restarted_from" in config["current"]
         if "restarted_from" in config["current"]:
             self.set_rgen()
         else:
@@ -225,10 +226,15 @@ class REPEX_state:
         In case a crash, we pick lock locked from previous simulation.
         """
         if not self.locked0:
-            if "restarted_from" in self.config["current"]:
-                # get the same pick() as pre-restart. Need to set it again
-                # because current self.rgen was used for calculating self.prob.
-                self.set_rgen()
+            if self._restore_rgen_state:
+                # get the same pick() as pre-restart. Need to set the state
+                # again because current self.rgen was used for calculating
+                # self.prob. Only once, and only the state: the spawn counter
+                # must keep counting so that every job gets its own stream.
+                self._restore_rgen_state = False
+                self.rgen.bit_generator.state = self.config["current"][
+                    "rng_state"
+                ]
             return self.pick()
 
         enss = []
@@ -400,8 +406,15 @@ class REPEX_state:
 
     def set_rgen(self):
         """Set numpy random generator state from restart."""
+        # one child stream was spawned per job handed out so far. With jobs
+        # in flight, one more may have been handed out right after the
+        # restart file was written: skip its stream too.
+        n_spawned = self.config["current"].get("rng_spawned", self.cstep)
+        if self.config["current"].get("locked", []):
+            n_spawned += 1
         seed_sequence = np.random.SeedSequence(
-            entropy=0, n_children_spawned=self.cstep
+            entropy=self.config["simulation"]["seed"],
+            n_children_spawned=n_spawned,
         )
         self.rgen = default_rng(seed_sequence)
         self.rgen.bit_generator.state = self.config["current"]["rng_state"]
@@ -736,6 +749,14 @@ class REPEX_state:
             )
         self.config["current"]["locked"] = locked_ep
         self.config["current"]["rng_state"] = self.rgen.bit_generator.state
+        # number of job streams spawned so far, needed to continue the
+        # sequence after a restart (equals cstep unless jobs are or were in
+        # flight at a stop; only stored in that case).
+        n_spawned = self.rgen.bit_generator._seed_seq.n_children_spawned
+        if n_spawned != self.cstep:
+            self.config["current"]["rng_spawned"] = n_spawned
+        else:
+            self.config["current"].pop("rng_spawned", None)
 
         # save accumulative fracs
         self.config["current"]["frac"] = {}
